@@ -572,6 +572,44 @@ def run(ctx):
         was_unspent_flag(ctx, R8)
     R9 = "C04.R9"
     run.rule(R9, "which outstanding entries the refresh confirms through their kernel: all but those that are confirmed already, carry no kernel excess, or still have an unconfirmed output that refers to them (through which step 1 confirms them)", floor=4)
+    kernel_step_scope(ctx, R9)
+    R10 = "C04.R10"
+    run.rule(R10, "log entries are keyed by (account, id): every creator of an entry draws the id from the counter of the account it saves the entry under", floor=3)
+    from .shared import log_id_account
+    log_id_account(ctx, R10)
+    R11 = "C04.R11"
+    run.rule(R11, "an output is credited by one entry: the reservation step creates records only for outputs that are not on record yet - the context of a self-paid invoice also lists the invoiced output, which the invoice's own TxReceived entry (and its own account) accounts for", floor=1)
+    lk11 = ctx.fn(c.LW + "internal::selection::lock_tx_context")
+    if lk11 is None:
+        run.error("C04.R11: lock_tx_context not found")
+    else:
+        OD11 = c.LW + "types::OutputData"
+        saves11 = []
+        for b, t in cfg.find_calls(lk11, c.WOB + "save"):
+            lits = [x for x in vf.producers(lk11, t["a"][1]) if x[0] == "agg" and x[1] == OD11] or [x for x in vf.origins(lk11, t["a"][1]) if x[0] == "agg" and x[1].startswith(OD11)]
+            if lits:
+                saves11.append(b)
+        if not saves11:
+            run.error("C04.R11: lock_tx_context no longer saves a new OutputData record (anchor missing)")
+        fresh = set()
+        for gb, gt in cfg.find_calls(lk11, c.WOB + "get"):
+            fresh |= cfg.call_guard(lk11, gb).fail
+        for b in saves11:
+            # inside the loop: every way into the save from the loop head passes the 'no such record' edge of a look-up
+            heads = [hb for hb, ht in lk11.calls() if (ht.get("f") or "").endswith("Iterator::next") and b in cfg.reach(lk11, starts=tuple(lk11.succ(hb)), cut_nodes=frozenset({hb})) and hb in cfg.reach(lk11, starts=[b])]
+            held = bool(fresh) and bool(heads) and all(b not in cfg.reach(lk11, starts=tuple(lk11.succ(hb)), cut_edges=fresh, cut_nodes=frozenset({hb})) for hb in heads)
+            run.instance(R11, {"fn": "lock_tx_context", "obligation": "the record of a created output is written only on the not-found edge of a look-up of its key", "site": c.site_of(lk11, b), "look-ups": len(cfg.find_calls(lk11, c.WOB + "get"))}, held=held)
+            if not held:
+                run.finding(Finding(R11, lk11.id, "the reservation step writes (and credits to the TxSent entry) every output the context lists, also one that is on record already: paying one's own invoice credits the invoiced amount twice (TxReceived and TxSent) and files the invoiced output under the payer's account", site=c.site_of(lk11, b)))
+    run.not_decided += ["equality with the node's UTXO set", "the ledger identity credits - debits = total + locked", "confirmation / maturity arithmetic"]
+
+
+
+def kernel_step_scope(ctx, R9):
+    """Which outstanding entries update_txs_via_kernel leaves to step 1 (C04.R9; the same clause under C05: a mined
+    send must be confirmed by the refresh the cancel runs first, or the cancel goes through)."""
+    run = ctx.run
+    db = ctx.db
     uk = ctx.fn(c.LW + "api_impl::owner::update_txs_via_kernel")
     if uk is None:
         run.error("C04.R9: update_txs_via_kernel not found")
@@ -689,32 +727,3 @@ def run(ctx):
                     run.finding(Finding(R9, uk.id, "an outstanding send with change is never looked up by kernel, also when no change output refers to it any more (change re-spent before it confirmed): it stays unconfirmed for good", site=c.site_of(uk, g_)))
                 else:
                     run.finding(Finding(R9, uk.id, "outstanding entries are excluded from the kernel lookup by a condition other than confirmed / no kernel excess / (debit and credit, change output pending)", site=c.site_of(uk, g_), detail=cl))
-    R10 = "C04.R10"
-    run.rule(R10, "log entries are keyed by (account, id): every creator of an entry draws the id from the counter of the account it saves the entry under", floor=3)
-    from .shared import log_id_account
-    log_id_account(ctx, R10)
-    R11 = "C04.R11"
-    run.rule(R11, "an output is credited by one entry: the reservation step creates records only for outputs that are not on record yet - the context of a self-paid invoice also lists the invoiced output, which the invoice's own TxReceived entry (and its own account) accounts for", floor=1)
-    lk11 = ctx.fn(c.LW + "internal::selection::lock_tx_context")
-    if lk11 is None:
-        run.error("C04.R11: lock_tx_context not found")
-    else:
-        OD11 = c.LW + "types::OutputData"
-        saves11 = []
-        for b, t in cfg.find_calls(lk11, c.WOB + "save"):
-            lits = [x for x in vf.producers(lk11, t["a"][1]) if x[0] == "agg" and x[1] == OD11] or [x for x in vf.origins(lk11, t["a"][1]) if x[0] == "agg" and x[1].startswith(OD11)]
-            if lits:
-                saves11.append(b)
-        if not saves11:
-            run.error("C04.R11: lock_tx_context no longer saves a new OutputData record (anchor missing)")
-        fresh = set()
-        for gb, gt in cfg.find_calls(lk11, c.WOB + "get"):
-            fresh |= cfg.call_guard(lk11, gb).fail
-        for b in saves11:
-            # inside the loop: every way into the save from the loop head passes the 'no such record' edge of a look-up
-            heads = [hb for hb, ht in lk11.calls() if (ht.get("f") or "").endswith("Iterator::next") and b in cfg.reach(lk11, starts=tuple(lk11.succ(hb)), cut_nodes=frozenset({hb})) and hb in cfg.reach(lk11, starts=[b])]
-            held = bool(fresh) and bool(heads) and all(b not in cfg.reach(lk11, starts=tuple(lk11.succ(hb)), cut_edges=fresh, cut_nodes=frozenset({hb})) for hb in heads)
-            run.instance(R11, {"fn": "lock_tx_context", "obligation": "the record of a created output is written only on the not-found edge of a look-up of its key", "site": c.site_of(lk11, b), "look-ups": len(cfg.find_calls(lk11, c.WOB + "get"))}, held=held)
-            if not held:
-                run.finding(Finding(R11, lk11.id, "the reservation step writes (and credits to the TxSent entry) every output the context lists, also one that is on record already: paying one's own invoice credits the invoiced amount twice (TxReceived and TxSent) and files the invoiced output under the payer's account", site=c.site_of(lk11, b)))
-    run.not_decided += ["equality with the node's UTXO set", "the ledger identity credits - debits = total + locked", "confirmation / maturity arithmetic"]
